@@ -1,0 +1,131 @@
+//go:build verif
+
+package kcache
+
+// Exported wrappers around unexported constructors, compiled only with the
+// `verif` build tag.  They let an external harness drive one actor in
+// isolation the same way the in-package tests do.  Nothing here changes
+// behaviour of the library.
+
+import (
+	"context"
+	"sync"
+	"time"
+
+	logutil "github.com/boz/go-logutil"
+	"github.com/boz/kcache/client"
+	"github.com/boz/kcache/filter"
+	metav1 "k8s.io/apimachinery/pkg/apis/meta/v1"
+	"k8s.io/apimachinery/pkg/runtime"
+)
+
+// VerifCache exposes the cache actor.
+type VerifCache struct {
+	c cache
+}
+
+func VerifNewCache(ctx context.Context, log logutil.Log, stopch <-chan struct{}, f filter.Filter) *VerifCache {
+	return &VerifCache{newCache(ctx, log, stopch, f)}
+}
+
+func (v *VerifCache) Sync(list []metav1.Object) ([]Event, error) { return v.c.sync(list) }
+func (v *VerifCache) Update(evt Event) ([]Event, error)          { return v.c.update(evt) }
+func (v *VerifCache) Refilter(list []metav1.Object, f filter.Filter) ([]Event, error) {
+	return v.c.refilter(list, f)
+}
+func (v *VerifCache) List() ([]metav1.Object, error)             { return v.c.List() }
+func (v *VerifCache) Get(ns, name string) (metav1.Object, error) { return v.c.Get(ns, name) }
+func (v *VerifCache) Reader() CacheReader                        { return v.c }
+func (v *VerifCache) Done() <-chan struct{}                      { return v.c.Done() }
+func (v *VerifCache) Error() error                               { return v.c.Error() }
+
+// VerifRoot is a controller without lister and watcher: a cache, the root
+// subscription and the publisher, wired as builder.Create wires them.
+type VerifRoot struct {
+	cache   cache
+	sub     subscription
+	pub     Controller
+	readych chan struct{}
+	stopch  chan struct{}
+	once    sync.Once
+	ronce   sync.Once
+}
+
+func VerifNewRoot(ctx context.Context, log logutil.Log, f filter.Filter) *VerifRoot {
+	stopch := make(chan struct{})
+	readych := make(chan struct{})
+	c := newCache(ctx, log, stopch, f)
+	sub := newSubscription(log, stopch, readych, c)
+	pub := newPublisher(log, sub)
+	return &VerifRoot{cache: c, sub: sub, pub: pub, readych: readych, stopch: stopch}
+}
+
+func (r *VerifRoot) Cache() *VerifCache    { return &VerifCache{r.cache} }
+func (r *VerifRoot) Publisher() Controller { return r.pub }
+func (r *VerifRoot) Send(evt Event) error  { return r.sub.send(evt) }
+func (r *VerifRoot) MakeReady()            { r.ronce.Do(func() { close(r.readych) }) }
+func (r *VerifRoot) Stop()                 { r.once.Do(func() { close(r.stopch) }) }
+func (r *VerifRoot) SubDone() <-chan struct{} {
+	return r.sub.Done()
+}
+
+func VerifNewFilterSubscription(log logutil.Log, parent Subscription, f filter.Filter, deferReady bool) FilterSubscription {
+	return newFilterSubscription(log, parent, f, deferReady)
+}
+
+func VerifNewPublisher(log logutil.Log, parent Subscription) Controller {
+	return newPublisher(log, parent)
+}
+
+// VerifLister exposes the lister actor.
+type VerifLister struct {
+	l *_lister
+}
+
+func VerifNewLister(ctx context.Context, log logutil.Log, stopch <-chan struct{}, period time.Duration, c client.ListClient) *VerifLister {
+	return &VerifLister{newLister(ctx, log, stopch, period, c)}
+}
+
+// Recv waits for the next list result.  ok is false when the lister is done
+// or stop fires first.
+func (v *VerifLister) Recv(stop <-chan struct{}) (obj runtime.Object, err error, ok bool) {
+	select {
+	case r := <-v.l.Result():
+		return r.list, r.err, true
+	case <-v.l.Done():
+		return nil, nil, false
+	case <-stop:
+		return nil, nil, false
+	}
+}
+func (v *VerifLister) Done() <-chan struct{} { return v.l.Done() }
+func (v *VerifLister) Error() error          { return v.l.Error() }
+
+// VerifTicker exposes the ticker actor.
+type VerifTicker struct {
+	t ticker
+}
+
+func VerifNewTicker(period time.Duration, fuzz float64) *VerifTicker {
+	return &VerifTicker{newTicker(period, fuzz)}
+}
+func (v *VerifTicker) Next() <-chan int      { return v.t.Next() }
+func (v *VerifTicker) Reset()                { v.t.Reset() }
+func (v *VerifTicker) Stop()                 { v.t.Stop() }
+func (v *VerifTicker) Done() <-chan struct{} { return v.t.Done() }
+
+// VerifWatcher exposes the watcher actor.
+type VerifWatcher struct {
+	w watcher
+}
+
+func VerifNewWatcher(ctx context.Context, log logutil.Log, stopch <-chan struct{}, c client.WatchClient) *VerifWatcher {
+	return &VerifWatcher{newWatcher(ctx, log, stopch, c)}
+}
+func (v *VerifWatcher) Reset(vsn string) error { return v.w.reset(vsn) }
+func (v *VerifWatcher) Events() <-chan Event   { return v.w.events() }
+func (v *VerifWatcher) Done() <-chan struct{}  { return v.w.Done() }
+func (v *VerifWatcher) Error() error           { return v.w.Error() }
+
+const VerifWatchRetryDelay = watchRetryDelay
+const VerifDefaultRefreshFuzz = defaultRefreshFuzz
